@@ -161,6 +161,25 @@ def blockDiagSpec (m n : Nat) : List (Nat → Nat → Int) → Nat → Nat → I
     if i < m ∧ j < n then B i j
     else if m ≤ i ∧ n ≤ j then blockDiagSpec m n r (i - m) (j - n) else 0
 
+theorem movedGo_spec (l : List K) :
+    movedGo false true l = hasTST l ∧ movedGo true true l = hasST l ∧ movedGo true false l = hasT l := by
+  induction l with
+  | nil => simp [movedGo, hasTST, hasST, hasT]
+  | cons x r ih =>
+    obtain ⟨h1, h2, h3⟩ := ih
+    cases x <;> simp [movedGo, hasTST, hasST, hasT, h1, h2, h3]
+
+theorem movedToStart_cases (k : K) (l : List K) :
+    movedToStart (k :: l) = (decide (k = K.T) || hasTST (k :: l)) := by
+  cases k <;> simp [movedToStart, hasTST, (movedGo_spec l).1]
+
+theorem movedToStart_specPos' (k : K) (l : List K) (h : movedToStart (k :: l) = true) : specPos (k :: l) = 0 := by
+  rw [movedToStart_cases] at h
+  cases k with
+  | T => unfold specPos; simp only [hasTST, slicesBeforeT]; by_cases hh : hasST l = true <;> simp [hh]
+  | I => simp_all [specPos, hasTST, slicesBeforeT]
+  | S => simp_all [specPos, hasTST, slicesBeforeT]
+
 def prodNat (l : List Nat) : Nat := l.foldl (· * ·) 1
 
 theorem prodNat_cons (n : Nat) (l : List Nat) : prodNat (n :: l) = n * prodNat l := by
